@@ -39,6 +39,13 @@ const (
 	// chooses (by its timestamp) between 1 and 16 units of work, so the
 	// longest chain is not necessarily the most-work chain.
 	FamWork Family = "work"
+	// FamRetarget: testnet3-style rules (minimum-difficulty exception, no
+	// BIP94) with a retarget every 4 blocks (10 s spacing, adjustment factor
+	// 4) and a genesis 16x harder than the limit, so that retarget heights,
+	// the clamp and the exception all occur within a few blocks.
+	FamRetarget Family = "retarget"
+	// FamRetarget94: the same with the BIP94 (testnet4) retarget base.
+	FamRetarget94 Family = "retarget94"
 )
 
 // WorkHardBits / WorkEasyBits are the two difficulties of FamWork.
@@ -84,6 +91,27 @@ func NewParams(f Family, maturity uint16) *chaincfg.Params {
 		p.GenesisBlock = &gen
 		h := gen.Header.BlockHash()
 		p.GenesisHash = &h
+	case FamRetarget, FamRetarget94:
+		p.PoWNoRetargeting = false
+		p.ReduceMinDifficulty = true
+		p.EnforceBIP94 = f == FamRetarget94
+		p.TargetTimePerBlock = workSpacing * time.Second
+		p.TargetTimespan = 4 * workSpacing * time.Second
+		p.RetargetAdjustmentFactor = 4
+		p.MinDiffReductionTime = 2 * workSpacing * time.Second
+		gen := *p.GenesisBlock
+		gen.Header.Bits = WorkHardBits
+		gen.Header.Timestamp = time.Unix(T0-1000, 0)
+		for n := uint32(0); ; n++ {
+			gen.Header.Nonce = n
+			h := gen.Header.BlockHash()
+			if hashToBig(&h).Cmp(compactToBig(WorkHardBits)) <= 0 {
+				break
+			}
+		}
+		p.GenesisBlock = &gen
+		h := gen.Header.BlockHash()
+		p.GenesisHash = &h
 	default:
 		panic("unknown family " + string(f))
 	}
@@ -104,6 +132,25 @@ func compactToBig(c uint32) *big.Int {
 		m.Neg(m)
 	}
 	return m
+}
+
+// bigToCompact is the inverse used for retargeted targets (positive values).
+func bigToCompact(n *big.Int) uint32 {
+	if n.Sign() == 0 {
+		return 0
+	}
+	size := uint((n.BitLen() + 7) / 8)
+	var m uint32
+	if size <= 3 {
+		m = uint32(n.Uint64() << (8 * (3 - size)))
+	} else {
+		m = uint32(new(big.Int).Rsh(n, 8*(size-3)).Uint64())
+	}
+	if m&0x00800000 != 0 {
+		m >>= 8
+		size++
+	}
+	return uint32(size)<<24 | m
 }
 
 func hashToBig(h *chainhash.Hash) *big.Int {
